@@ -88,7 +88,8 @@ pub fn gen_queue(r: &mut Rng, n: usize) -> Vec<String> {
     let mut seen = HashSet::new();
     let mut q = vec![];
     if class == 3 {
-        for s in ["null", "true", "0", "123", "-", "_", "e", "1e5"] {
+        // the empty string is a string over the base64url alphabet too
+        for s in ["null", "", "true", "0", "123", "-", "_", "e", "1e5"] {
             if q.len() < n && seen.insert(s.to_string()) {
                 q.push(s.to_string());
             }
